@@ -40,11 +40,10 @@ def __d2state__(t: Union[Tuple[Type, U], Tuple[Tuple[Type, U], ...]]) -> Tuple[T
         our_type = t
         while isinstance(our_type, tuple):
             our_type = our_type[0]  # type: ignore
-        # Compute the rest
-        rest = []
-        for tt in t:
-            rest.append(__extract__(tt)[1])
-        return (our_type, tuple(rest))
+        # Keep the whole state as the payload: keeping only element [1] of every
+        # component drops, for nested products / minimised classes, the part
+        # that distinguishes two states, which merges their non-terminals
+        return (our_type, t)
     return t  # type: ignore
 
 
